@@ -7,7 +7,7 @@
    helpers copy the count back) and the seeded mutant C09-m2 (arraySort swallowing the budget error) are about; the
    correspondence and the direct oracle exercise them on the real library. *)
 From Coq Require Import ZArith.
-From BS Require Import Model.Base Model.Num Model.Arith Model.ExprParser Model.Script Model.Interp Model.LibCore Model.LibAll Model.Run Proofs.C09 Proofs.LibAll Proofs.C09term Proofs.C09termLib.
+From BS Require Import Model.Base Model.Num Model.Arith Model.ExprParser Model.Script Model.Interp Model.LibCore Model.LibAll Model.LibPartial Model.Run Proofs.C09 Proofs.LibAll Proofs.LibPartial Proofs.C09term Proofs.C09termLib.
 Local Open Scope Z_scope.
 
 (* EXACT (1): the limit is tested at the head of every statement, after counting it: with L statements started, statement
@@ -61,8 +61,8 @@ Theorem C09_premises_hold_for_modelled_library : forall cfg, lib_monotone (libco
 Proof. intros cfg. split; [exact (libcore_monotone cfg)|exact (libcore_lockstep cfg)]. Qed.
 Print Assumptions C09_premises_hold_for_modelled_library.
 
-Theorem C09_premises_hold_for_combined_library : forall cfg, lib_monotone (libfull cfg) /\ lib_lockstep (libfull cfg) cfg.
-Proof. intros cfg. split; [exact (libfull_monotone cfg)|exact (libfull_lockstep cfg)]. Qed.
+Theorem C09_premises_hold_for_combined_library : forall cfg, lib_monotone (libfull2 cfg) /\ lib_lockstep (libfull2 cfg) cfg.
+Proof. intros cfg. split; [exact (libfull2_monotone cfg)|exact (libfull2_lockstep cfg)]. Qed.
 Print Assumptions C09_premises_hold_for_combined_library.
 
 (* ======================= "... so no script can run forever" =======================
